@@ -460,6 +460,12 @@ class AsyncSimStream(AsyncNetworkStream):
         # checkpoint afterwards)
         op = self._net.new_op("close", self._rec.sid)
         self._net.resolve(op)
+        # ... and the checkpoint afterwards (anyio's SocketStream.aclose: transport.close(); await sleep(0) -
+        # trio's aclose_forcefully the same): a caller that is being cancelled and closes OUTSIDE a shield
+        # is interrupted here, with the socket already closed and whatever follows the await not executed
+        import anyio.lowlevel
+
+        await anyio.lowlevel.checkpoint()
 
     async def start_tls(self, ssl_context, server_hostname=None, timeout=None):
         op = self._net.new_op(
